@@ -302,3 +302,14 @@ def printed_values(out: str, tag: str):
             i = p.i
         except Exception:
             i = m.end()
+
+
+def has_null(o) -> bool:
+    """JSON null cannot be read by the Json module: a recorded document containing one is malformed."""
+    if o is None:
+        return True
+    if isinstance(o, dict):
+        return any(has_null(v) for v in o.values())
+    if isinstance(o, (list, tuple)):
+        return any(has_null(v) for v in o)
+    return False
